@@ -1,16 +1,83 @@
-// Package c03x gives the C03 harness access to the individual normalisation passes of
-// astnormalization.  The passes are unexported registration functions; they are reached with
-// go:linkname (pull), which needs no change of /repo.  Nothing here alters their behaviour.
+// Package c03x: helpers of the C03 harness (tree forms, dumps, JSON) and access to the individual
+// normalisation passes of astnormalization.  The passes are unexported registration functions;
+// they are reached with go:linkname (pull), which needs no change of /repo and does not alter
+// their behaviour: each function registers the pass' visitor on the walker it is given.
 package c03x
 
 import (
-	_ "unsafe"
+	"unsafe"
 
+	"github.com/wundergraph/graphql-go-tools/v2/pkg/ast"
 	_ "github.com/wundergraph/graphql-go-tools/v2/pkg/astnormalization"
 	"github.com/wundergraph/graphql-go-tools/v2/pkg/astvisitor"
+	"github.com/wundergraph/graphql-go-tools/v2/pkg/operationreport"
 )
+
+//go:linkname directiveIncludeSkip github.com/wundergraph/graphql-go-tools/v2/pkg/astnormalization.directiveIncludeSkip
+func directiveIncludeSkip(walker *astvisitor.Walker)
+
+//go:linkname fragmentSpreadInline github.com/wundergraph/graphql-go-tools/v2/pkg/astnormalization.fragmentSpreadInline
+func fragmentSpreadInline(walker *astvisitor.Walker)
 
 //go:linkname removeSelfAliasing github.com/wundergraph/graphql-go-tools/v2/pkg/astnormalization.removeSelfAliasing
 func removeSelfAliasing(walker *astvisitor.Walker)
 
-func RemoveSelfAliasing(w *astvisitor.Walker) { removeSelfAliasing(w) }
+//go:linkname inlineSelectionsFromInlineFragments github.com/wundergraph/graphql-go-tools/v2/pkg/astnormalization.inlineSelectionsFromInlineFragments
+func inlineSelectionsFromInlineFragments(walker *astvisitor.Walker)
+
+//go:linkname mergeInlineFragmentSelections github.com/wundergraph/graphql-go-tools/v2/pkg/astnormalization.mergeInlineFragmentSelections
+func mergeInlineFragmentSelections(walker *astvisitor.Walker)
+
+//go:linkname removeFragmentDefinitions github.com/wundergraph/graphql-go-tools/v2/pkg/astnormalization.removeFragmentDefinitions
+func removeFragmentDefinitions(walker *astvisitor.Walker)
+
+//go:linkname deduplicateFields github.com/wundergraph/graphql-go-tools/v2/pkg/astnormalization.deduplicateFields
+func deduplicateFields(walker *astvisitor.Walker)
+
+//go:linkname deleteUnusedVariables github.com/wundergraph/graphql-go-tools/v2/pkg/astnormalization.deleteUnusedVariables
+func deleteUnusedVariables(walker *astvisitor.Walker) unsafe.Pointer
+
+//go:linkname detectVariableUsage github.com/wundergraph/graphql-go-tools/v2/pkg/astnormalization.detectVariableUsage
+func detectVariableUsage(walker *astvisitor.Walker, deletion unsafe.Pointer) unsafe.Pointer
+
+// Pass is one normalisation pass run on its own walker, as setupOperationWalkers would
+// register it (same walker constructor, only this visitor on it).
+type Pass struct {
+	Name string
+	reg  func(w *astvisitor.Walker)
+}
+
+// SelectionPasses lists the selection-set passes in the order of setupOperationWalkers.
+var SelectionPasses = []Pass{
+	{"include_skip", directiveIncludeSkip},
+	{"fragment_inline", fragmentSpreadInline},
+	{"self_alias", removeSelfAliasing},
+	{"inline_selections", inlineSelectionsFromInlineFragments},
+	{"merge_selections", mergeInlineFragmentSelections},
+	{"remove_fragment_defs", removeFragmentDefinitions},
+	{"dedup_fields", deduplicateFields},
+}
+
+// Run applies the pass to operation in place.
+func (p Pass) Run(operation, definition *ast.Document, report *operationreport.Report) {
+	w := astvisitor.NewWalkerWithID(8, p.Name)
+	p.reg(&w)
+	w.Walk(operation, definition, report)
+}
+
+// RunUnusedVariables runs detectVariableUsage (on the document as it is) followed by `between`
+// and then deleteUnusedVariables, the way the first and the cleanup stage share the deletion visitor.
+func RunUnusedVariables(operation, definition *ast.Document, report *operationreport.Report, between func()) {
+	w2 := astvisitor.NewWalkerWithID(8, "Cleanup")
+	del := deleteUnusedVariables(&w2)
+	w1 := astvisitor.NewWalkerWithID(8, "Detect")
+	detectVariableUsage(&w1, del)
+	w1.Walk(operation, definition, report)
+	if report.HasErrors() {
+		return
+	}
+	if between != nil {
+		between()
+	}
+	w2.Walk(operation, definition, report)
+}
